@@ -426,7 +426,7 @@ func runMachines(kc *kernelCtx, blocks []*Block, only string, want map[string]bo
 		if only != "" && !strings.Contains(b.Name, only) {
 			continue
 		}
-		if len(want) > 0 && !anyProp(b, want) {
+		if len(want) > 0 && !anyProp(b, want) && !(want["C12"] && b.first("inv") != nil) {
 			continue
 		}
 		units = append(units, runOperator(kc, b))
@@ -994,6 +994,10 @@ func (mr *machineRun) emit(x *Exec, role string, byName map[string][]Obl, notes 
 					props = append(props, p)
 				}
 			}
+		}
+		if n == "inv-initial" {
+			// the state of a subscription starts from its initial value whoever subscribed before: also a C12 fact
+			props = append(append([]string{}, props...), "C12")
 		}
 		o := OutObl{Name: qualName(mr.sp.Block) + "/" + role + "/" + n, Props: props, Layer: "M", Func: qualName(mr.sp.Block), Clause: notes[n], Pos: pos, Paths: len(byName[n]), Contract: shortFile(mr.sp.Block.File)}
 		if trivial {
